@@ -237,4 +237,52 @@ mod verif_ops {
     #[kani::proof] #[kani::unwind(26)] fn c10_hash_char_char() { check_hash(3, 3); }
     #[kani::proof] #[kani::unwind(26)] fn c10_hash_bool_bool() { check_hash(4, 4); }
     #[kani::proof] #[kani::unwind(26)] fn c10_hash_null_null() { check_hash(5, 5); }
+
+    // C08 / C11: Object::total_order (the comparison sort() uses) is a total preorder on all scalar values - so slice::sort
+    // cannot meet an inconsistent comparison - and agrees with the language's '<' on values of one comparable kind
+    use std::cmp::Ordering as O;
+    fn num(k: u8) -> Object { if k == 0 { Object::Integer(kani::any()) } else { Object::Float(kani::any()) } }
+    fn check_pair(a: Object, b: Object) {
+        assert!(a.total_order(&b) == b.total_order(&a).reverse());
+        assert!(a.total_order(&a) == O::Equal);
+        kani::cover!(true);
+    }
+    fn check_triple(a: Object, b: Object, c: Object) {
+        let (ab, bc, ac) = (a.total_order(&b), b.total_order(&c), a.total_order(&c));
+        if ab != O::Greater && bc != O::Greater { assert!(ac != O::Greater); }
+        if ab == O::Equal && bc == O::Equal { assert!(ac == O::Equal); }
+        if ab == O::Less && bc != O::Greater { assert!(ac == O::Less); }
+        kani::cover!(true);
+    }
+    // numbers: one harness per combination of kinds (payloads symbolic)
+    #[kani::proof] fn c08_total_order_pair_ii() { check_pair(num(0), num(0)); }
+    #[kani::proof] fn c08_total_order_pair_ff() { check_pair(num(1), num(1)); }
+    #[kani::proof] fn c08_total_order_pair_if() { check_pair(num(0), num(1)); }
+    #[kani::proof] fn c08_total_order_triple_iii() { check_triple(num(0), num(0), num(0)); }
+    #[kani::proof] fn c08_total_order_triple_fff() { check_triple(num(1), num(1), num(1)); }
+    #[kani::proof] fn c08_total_order_triple_iif() { check_triple(num(0), num(0), num(1)); }
+    #[kani::proof] fn c08_total_order_triple_ifi() { check_triple(num(0), num(1), num(0)); }
+    #[kani::proof] fn c08_total_order_triple_fii() { check_triple(num(1), num(0), num(0)); }
+    #[kani::proof] fn c08_total_order_triple_iff() { check_triple(num(0), num(1), num(1)); }
+    #[kani::proof] fn c08_total_order_triple_fif() { check_triple(num(1), num(0), num(1)); }
+    #[kani::proof] fn c08_total_order_triple_ffi() { check_triple(num(1), num(1), num(0)); }
+    #[kani::proof]
+    fn c11_total_order_agrees_with_less_than() {
+        let (ia, ib): (i64, i64) = (kani::any(), kani::any());
+        let (fa, fb): (f64, f64) = (kani::any(), kani::any());
+        let (ba, bb): (u8, u8) = (kani::any(), kani::any());
+        let (ca, cb): (char, char) = (kani::any(), kani::any());
+        assert!((Object::Integer(ia).total_order(&Object::Integer(ib)) == O::Less) == (ia < ib));
+        if !fa.is_nan() && !fb.is_nan() { assert!((Object::Float(fa).total_order(&Object::Float(fb)) == O::Less) == (fa < fb)); }
+        assert!((Object::Byte(ba).total_order(&Object::Byte(bb)) == O::Less) == (ba < bb));
+        assert!((Object::Char(ca).total_order(&Object::Char(cb)) == O::Less) == (ca < cb));
+        // integer next to float: the exact order never contradicts the comparison as doubles
+        if !fb.is_nan() {
+            let t = Object::Integer(ia).total_order(&Object::Float(fb));
+            if t == O::Less { assert!((ia as f64) <= fb); }
+            if t == O::Greater { assert!((ia as f64) >= fb); }
+            if t == O::Equal { assert!((ia as f64) == fb); }
+        }
+        kani::cover!(true);
+    }
 }
